@@ -45,10 +45,16 @@ pub struct TxCfg {
     /// (sequence number one below RCV.NXT, one garbage octet) makes the socket send a bare ACK
     /// from SYN-RECEIVED - a non-SYN segment before the connection is synchronized
     pub hs_probe: bool,
+    /// the peer also sends DATA: segments of two octets carrying an ACK and a window, either in
+    /// sequence or re-packetised (starting one octet before its SND.NXT: one old octet + one new)
+    pub peer_data: bool,
 }
 
 #[derive(Clone, Debug, PartialEq)]
 pub enum TxEv {
+    /// peer data segment (see `TxCfg::peer_data`): `which`/`win` as for Ack, `back` = octets of
+    /// overlap with what the peer sent before (0 or 1)
+    AckData { which: u8, win: u8, back: u8 },
     /// peer sends an ACK: which = 0 dup of last, 1 last+1, 2 middle, 3 everything sent; win index
     Ack { which: u8, win: u8 },
     /// peer re-sends an earlier ACK segment verbatim (0 = the first one, 1 = the one before last)
@@ -73,6 +79,8 @@ pub struct Tx {
     last_ack: u32,
     acks_sent: Vec<(u32, u16)>,
     peer_seq: u32,
+    peer_sent: u32,
+    stale_used: bool,
     pending: Vec<Viol>,
 }
 
@@ -120,6 +128,7 @@ impl Tx {
                 keep_alive: false,
                 expect_isn: None,
             window_clamped_by_device: false,
+            strict_latest_window: !self.stale_used,
             };
             let v = self.mon.check_emit(&f, &ctx);
             self.pending.extend(v);
@@ -159,6 +168,8 @@ impl Harness for Tx {
             last_ack: 0,
             acks_sent: vec![],
             peer_seq: cfg.peer_isn.wrapping_add(1),
+            peer_sent: 0,
+            stale_used: false,
             pending: vec![],
             w: One::new(1, 1, 0), // placeholder, swapped in below
         };
@@ -250,6 +261,16 @@ impl Harness for Tx {
                 v.push((TxEv::Ack { which, win }, 0));
             }
         }
+        if self.cfg.peer_data && self.peer_sent < 8 {
+            for which in [0u8, 3] {
+                for win in 0..5u8 {
+                    v.push((TxEv::AckData { which, win, back: 0 }, 0));
+                    if self.peer_sent > 0 {
+                        v.push((TxEv::AckData { which, win, back: 1 }, 0));
+                    }
+                }
+            }
+        }
         if self.acks_sent.len() >= 2 {
             v.push((TxEv::Stale(0), 0));
             v.push((TxEv::Stale(1), 0));
@@ -285,7 +306,21 @@ impl Harness for Tx {
                 let seg = build_seg(self.peer_seq, Some(a), 0, w, if self.cfg.peer_ts { &TS_OPT } else { &[] }, &[]);
                 self.deliver(seg);
             }
+            TxEv::AckData { which, win, back } => {
+                let nxt = self.mon.highest_sent.unwrap_or(self.last_ack);
+                let a = if which == 0 { self.last_ack } else { nxt };
+                let w = self.win_values()[win as usize];
+                self.last_ack = a;
+                self.acks_sent.push((a, w));
+                let seq = self.peer_seq.wrapping_sub(back as u32);
+                let payload: Vec<u8> = (0..2u32).map(|i| 0x80u8.wrapping_add((self.peer_sent.wrapping_sub(back as u32).wrapping_add(i)) as u8)).collect();
+                let seg = build_seg(seq, Some(a), wc::TCP_PSH, w, if self.cfg.peer_ts { &TS_OPT } else { &[] }, &payload);
+                self.peer_seq = seq.wrapping_add(2);
+                self.peer_sent = self.peer_sent + 2 - back as u32;
+                self.deliver(seg);
+            }
             TxEv::Stale(i) => {
+                self.stale_used = true;
                 let idx = if i == 0 { 0 } else { self.acks_sent.len() - 2 };
                 let (a, w) = self.acks_sent[idx];
                 let seg = build_seg(self.peer_seq, Some(a), 0, w, if self.cfg.peer_ts { &TS_OPT } else { &[] }, &[]);
@@ -370,8 +405,9 @@ impl Harness for Tx {
     fn fingerprint(&self) -> u128 {
         let img = format!("{:?}", self.w.sockets);
         fp128(&format!(
-            "{}|{}|{}|{}|{:?}|{:?}|{:?}|{}",
-            img, self.written, self.closed, self.last_ack, self.acks_sent.first(), self.acks_sent.last(), self.mon.max_edge, self.w.now
+            "{}|{}|{}|{}|{:?}|{:?}|{:?}|{}|{}|{:?}|{}|{}",
+            img, self.written, self.closed, self.last_ack, self.acks_sent.first(), self.acks_sent.last(), self.mon.max_edge, self.w.now,
+            self.stale_used, self.mon.last_edge, self.peer_seq, self.peer_sent
         ))
     }
     fn outcome(&self) -> String {
@@ -382,7 +418,7 @@ impl Harness for Tx {
 pub fn tx_configs(tier: Tier) -> Vec<(TxCfg, usize)> {
     let (mut d, dbig) = if tier == Tier::Quick { (6, 2) } else { (8, 3) };
     if let Ok(x) = std::env::var("TX_D") { d = x.parse().unwrap(); }
-    let base = TxCfg { name: "base", tx: 64, rx: 64, len: 40, chunk: 16, peer_mss: Some(100), peer_ws: None, server: true, mtu: 1500, peer_isn: 0xffff_fff0, reuse: false, ts: false, peer_ts: false, bp: false, cc: 0, synrcvd_rst: false, simul: false, hs_probe: false };
+    let base = TxCfg { name: "base", tx: 64, rx: 64, len: 40, chunk: 16, peer_mss: Some(100), peer_ws: None, server: true, mtu: 1500, peer_isn: 0xffff_fff0, reuse: false, ts: false, peer_ts: false, bp: false, cc: 0, synrcvd_rst: false, simul: false, hs_probe: false, peer_data: false };
     vec![
         (base.clone(), d),
         (TxCfg { name: "mss-absent", peer_mss: None, len: 30, chunk: 30, ..base.clone() }, d),
@@ -407,6 +443,8 @@ pub fn tx_configs(tier: Tier) -> Vec<(TxCfg, usize)> {
         (TxCfg { name: "simultaneous-open-mss-48-ws2", simul: true, server: false, peer_mss: Some(48), peer_ws: Some(2), tx: 256, len: 200, chunk: 200, ..base.clone() }, d.min(5)),
         (TxCfg { name: "bigrx-hs-probe-peer-ws1", hs_probe: true, rx: 100000, tx: 4096, len: 2500, chunk: 2500, peer_mss: Some(536), peer_ws: Some(1), ..base.clone() }, dbig),
         (TxCfg { name: "hs-probe-small", hs_probe: true, peer_ws: Some(3), ..base.clone() }, d.min(5)),
+        (TxCfg { name: "peer-sends-data-too", peer_data: true, tx: 128, len: 100, chunk: 100, ..base.clone() }, d.min(5)),
+        (TxCfg { name: "peer-sends-data-too-client-ws2", peer_data: true, server: false, peer_ws: Some(2), tx: 128, len: 100, chunk: 50, ..base.clone() }, d.min(5)),
         (TxCfg { name: "reno", cc: 1, tx: 256, len: 200, chunk: 100, peer_mss: Some(48), ..base.clone() }, d),
         (TxCfg { name: "cubic", cc: 2, tx: 256, len: 200, chunk: 100, peer_mss: Some(48), ..base.clone() }, d),
         // device back-pressure while the application writes / while timers fire
